@@ -55,6 +55,19 @@ def call_table(rng):
     t["weighted_barycenter_spring_layout"] = lambda s: xgi.weighted_barycenter_spring_layout(H, seed=s)
     t["bipartite_spring_layout"] = lambda s: xgi.bipartite_spring_layout(H, seed=s)
     t["spectral_clustering"] = lambda s: xgi.spectral_clustering(Hs, 3, seed=s)
+    # k-means inside spectral clustering has data-dependent branches (a cluster that empties, early
+    # convergence): more inputs and cluster numbers, each recorded with the call for the replay
+    for i in range(8):
+        nn = rng.randint(8, 24)
+        Hv = xgi.random_hypergraph(nn, [rng.choice([0.1, 0.15, 0.25]), rng.choice([0.02, 0.05])], seed=rng.randrange(1000))
+        Hv.remove_nodes_from(list(Hv.nodes.isolates()))      # the normalised Laplacian refuses isolated nodes
+        kv = rng.randint(2, 5)
+        if Hv.num_nodes <= kv:
+            continue
+        def th(s, Hv=Hv, kv=kv):
+            return xgi.spectral_clustering(Hv, kv, seed=s)
+        th.args = {"nodes": list(Hv.nodes), "edges": [sorted(e) for e in Hv.edges.members()], "k": kv}
+        t[f"spectral_clustering/{i}"] = th
     return t
 
 
@@ -76,6 +89,30 @@ def introspected():
             except (TypeError, ValueError):
                 pass
     return out
+
+
+def eigensolver_diverges(f, seed):
+    """Diagnosis for spectral_clustering: record what the sparse eigensolver (ARPACK through
+    scipy.sparse.linalg.eigsh) returns in two consecutive calls with identical matrix, k and start vector.
+    True when the eigenvectors differ although every argument is the same: the solver then depends on state
+    hidden inside ARPACK (its restart vector generator keeps a Fortran SAVE'd seed across calls)."""
+    import numpy as np
+    import xgi.communities.spectral as sp
+    rec = []
+    orig = sp.eigsh
+    def spy(L, *a, **kw):
+        out = orig(L, *a, **kw)
+        v0 = kw.get("v0")
+        rec.append((L.toarray().tobytes(), a, kw.get("k"), None if v0 is None else np.asarray(v0).tobytes(), np.asarray(out[1]).tobytes()))
+        return out
+    sp.eigsh = spy
+    try:
+        for _ in range(12):
+            f(seed)
+    finally:
+        sp.eigsh = orig
+    same_args = all(r[:4] == rec[0][:4] for r in rec)
+    return same_args and any(r[4] != rec[0][4] for r in rec)
 
 
 def perturb(rng, table):
@@ -131,9 +168,27 @@ def run(v):
     rounds = 12 if thorough else 3
     ncalls = 0
     covered = set()
+    # fixed probe for the recorded finding (so that it is reported on every run, not only when sampled)
+    try:
+        import xgi
+        with warnings.catch_warnings():
+            warnings.simplefilter("ignore")
+            Hk = xgi.Hypergraph([[0, 6], [1, 5], [2, 3], [4, 8], [6, 7], [1, 6, 8]])
+            fk = lambda s: xgi.spectral_clustering(Hk, 3, seed=s)
+            outs = [snap(fk(0)) for _ in range(12)]
+            ncalls += 12
+            if any(o != outs[0] for o in outs):
+                sig = "spectral_clustering:eigensolver-hidden-state" if eigensolver_diverges(fk, 0) else "spectral_clustering"
+                failures.append((f"{PROP}:{sig}", {"what": "spectral_clustering(H, 3, seed=0) returns different clusterings on repeated calls",
+                                                   "function": "spectral_clustering/known", "seed": 0,
+                                                   "args": {"nodes": list(Hk.nodes), "edges": [sorted(e) for e in Hk.edges.members()], "k": 3}}))
+    except Exception as e:  # noqa: BLE001
+        failures.append((f"{PROP}:spectral_clustering:raised", {"what": f"spectral_clustering raised {type(e).__name__}: {e}", "function": "spectral_clustering", "seed": 0}))
     for rd in range(rounds):
-        table = call_table(rng)
-        missing = pub - set(table)
+        with warnings.catch_warnings():
+            warnings.simplefilter("ignore")
+            table = call_table(rng)
+        missing = pub - {x.split('/')[0] for x in table}
         if missing and rd == 0:
             reports.append({"correspondence": "seeded function without a call recipe in the oracle", "functions": sorted(missing)})
         for name in sorted(table):
@@ -151,9 +206,13 @@ def run(v):
                             if a != b:
                                 ok = False
                                 break
-                        if not ok:
-                            failures.append((f"{PROP}:{name}", {"what": f"{name}(..., seed={seed}) returned different results on two calls with the global generators perturbed in between",
-                                                                "function": name, "seed": seed, "round": rd}))
+                        if not ok and name.startswith("spectral_clustering") and eigensolver_diverges(f, seed):
+                            failures.append((f"{PROP}:spectral_clustering:eigensolver-hidden-state",
+                                             {"what": "spectral_clustering: scipy's ARPACK eigensolver returns different eigenvectors for identical arguments (matrix, k, seeded start vector)",
+                                              "function": name, "seed": seed, "round": rd, "args": getattr(f, "args", None)}))
+                        elif not ok:
+                            failures.append((f"{PROP}:{name.split('/')[0]}", {"what": f"{name.split('/')[0]}(..., seed={seed}) returned different results on two calls with the global generators perturbed in between",
+                                                                "function": name, "seed": seed, "round": rd, "args": getattr(f, "args", None)}))
                         # run-time stream usage against the generated event list
                         if rd == 0 and seed == 0 and name in rows:
                             u = stream_usage(f, seed)
@@ -162,7 +221,7 @@ def run(v):
                                 reports.append({"correspondence": "generated event list vs run-time seeding", "function": name, "events": evs, "observed": u})
                             if (u["py_touched"] and not any("PyRandom" in e for e in evs)) or (u["np_touched"] and not any("NpGlobal" in e for e in evs)):
                                 reports.append({"correspondence": "generated event list misses a generator the call touches", "function": name, "events": evs, "observed": u})
-                        covered.add(name)
+                        covered.add(name.split('/')[0])
                     except Exception as e:  # noqa: BLE001
                         failures.append((f"{PROP}:{name}:raised", {"what": f"{name} raised {type(e).__name__}: {e}", "function": name, "seed": seed}))
     v.coverage.update({
@@ -184,9 +243,14 @@ def replay(payload):
     d = payload.get("detail", payload)
     rng = random.Random(0)
     table = call_table(rng)
-    f = table[d["function"]]
+    if d.get("args"):
+        import xgi
+        Hr = xgi.Hypergraph(); Hr.add_nodes_from(d["args"]["nodes"]); Hr.add_edges_from(d["args"]["edges"])
+        f = lambda s: getattr(xgi, d["function"].split("/")[0])(Hr, d["args"]["k"], seed=s)
+    else:
+        f = table[d["function"]]
     a = snap(f(d["seed"]))
-    for _ in range(5):
+    for _ in range(14):
         perturb(rng, table)
         if snap(f(d["seed"])) != a:
             print("oracle: results differ"); return 1
